@@ -346,6 +346,8 @@ def task_write(ctx, tid, t):
         d = ph.get_qpoints_dict()
         freqs = np.array(d["frequencies"])
         gv = np.array(d["group_velocities"]) if t["gv"] else None
+        vecs = np.array(d["eigenvectors"]) if t["eigvecs"] else None
+        qmem, wmem = np.array(qs, dtype=float), None
         obj = ph.qpoints
         fn = os.path.join(d0, "qpoints." + t["fmt"])
     elif what == "band":
@@ -353,6 +355,8 @@ def task_write(ctx, tid, t):
         d = ph.get_band_structure_dict()
         freqs = np.array(d["frequencies"][0])
         gv = np.array(d["group_velocities"][0]) if d.get("group_velocities") is not None else None
+        vecs = np.array(d["eigenvectors"][0]) if d.get("eigenvectors") is not None else None
+        qmem, wmem = np.array(d["qpoints"][0], dtype=float), None
         obj = ph.band_structure
         fn = os.path.join(d0, "band." + t["fmt"])
     else:
@@ -360,9 +364,12 @@ def task_write(ctx, tid, t):
         d = ph.get_mesh_dict()
         freqs = np.array(d["frequencies"])
         gv = np.array(d["group_velocities"]) if d["group_velocities"] is not None else None
+        vecs = np.array(d["eigenvectors"]) if d["eigenvectors"] is not None else None
+        qmem, wmem = np.array(d["qpoints"], dtype=float), np.array(d["weights"])
         obj = ph.mesh
         fn = os.path.join(d0, "mesh." + t["fmt"])
     freqs = freqs.copy()
+    vecs = None if vecs is None else vecs.copy()
     yield
     if t["fmt"] == "hdf5":
         obj.write_hdf5(filename=fn)
@@ -378,6 +385,19 @@ def task_write(ctx, tid, t):
                 g = np.array(f["group_velocity"][:]).reshape(gv.shape)
                 if not np.array_equal(g, gv):
                     ctx.violations.append({"class": "file-roundtrip", "site": "%s.hdf5:group_velocity" % what, "detail": float(np.max(np.abs(g - gv)))})
+            if vecs is not None and "eigenvector" in f:
+                e = np.array(f["eigenvector"][:]).reshape(vecs.shape)
+                if not np.array_equal(e, vecs):
+                    ctx.violations.append({"class": "file-roundtrip", "site": "%s.hdf5:eigenvector" % what, "detail": float(np.max(np.abs(e - vecs)))})
+                ctx.probes["file_roundtrip:eigenvectors.hdf5"] = 1
+            for key in ("qpoint", "path"):
+                if key in f and np.array(f[key]).size == qmem.size:
+                    qf = np.array(f[key][:]).reshape(qmem.shape)
+                    if np.max(np.abs(qf - qmem)) > 1e-12:
+                        ctx.violations.append({"class": "file-roundtrip", "site": "%s.hdf5:q-position" % what, "detail": float(np.max(np.abs(qf - qmem)))})
+            if wmem is not None and "weight" in f:
+                if not np.array_equal(np.array(f["weight"][:]).ravel(), wmem.ravel()):
+                    ctx.violations.append({"class": "file-roundtrip", "site": "%s.hdf5:weight" % what, "detail": "weights differ"})
     else:
         text = open(fn).read()
         pf = _printed(text, "frequency")
@@ -396,6 +416,36 @@ def task_write(ctx, tid, t):
                 ctx.violations.append({"class": "file-roundtrip", "site": "%s.yaml:group_velocity-count" % what, "detail": "%d printed, %d in memory" % (len(vals), len(g))})
             elif len(g) and np.max(np.abs(np.array(vals) - g)) > 0.5000001e-7 + 1e-12 * np.max(np.abs(g)):
                 ctx.violations.append({"class": "file-roundtrip", "site": "%s.yaml:group_velocity" % what, "detail": float(np.max(np.abs(np.array(vals) - g)))})
+        # the whole record structure: q-position, weight, and every eigenvector component (real and imaginary part are printed
+        # separately, per band, per atom, per Cartesian direction)
+        import yaml
+
+        try:
+            doc = yaml.load(text, Loader=getattr(yaml, "CSafeLoader", yaml.SafeLoader))
+        except Exception as e:  # noqa: BLE001
+            ctx.violations.append({"class": "file-roundtrip", "site": "%s.yaml:not-parseable" % what, "detail": str(e)[:200]})
+            doc = None
+        if doc is not None and "phonon" in doc:
+            recs = doc["phonon"]
+            if len(recs) != len(qmem):
+                ctx.violations.append({"class": "file-roundtrip", "site": "%s.yaml:record-count" % what, "detail": "%d records, %d q-points in memory" % (len(recs), len(qmem))})
+            else:
+                qf = np.array([r["q-position"] for r in recs], dtype=float)
+                if np.max(np.abs(qf - qmem)) > 0.51e-7:
+                    ctx.violations.append({"class": "file-roundtrip", "site": "%s.yaml:q-position" % what, "detail": float(np.max(np.abs(qf - qmem)))})
+                if wmem is not None and "weight" in recs[0]:
+                    if [int(r["weight"]) for r in recs] != [int(x) for x in wmem]:
+                        ctx.violations.append({"class": "file-roundtrip", "site": "%s.yaml:weight" % what, "detail": "weights differ"})
+                if vecs is not None and "eigenvector" in recs[0]["band"][0]:
+                    worst = 0.0
+                    for iq, r in enumerate(recs):
+                        for ib, b in enumerate(r["band"]):
+                            ev = np.array(b["eigenvector"], dtype=float)  # (natom, 3, 2)
+                            z = (ev[..., 0] + 1j * ev[..., 1]).reshape(-1)
+                            worst = max(worst, float(np.max(np.abs(z - vecs[iq][:, ib]))))
+                    if worst > 1e-13:
+                        ctx.violations.append({"class": "file-roundtrip", "site": "%s.yaml:eigenvector" % what, "detail": worst})
+                    ctx.probes["file_roundtrip:eigenvectors.yaml"] = 1
     ctx.probes["file_roundtrip:%s.%s" % (what, t["fmt"])] = 1
 
 
